@@ -8,8 +8,7 @@ use crate::run::*;
 use crate::value::*;
 use serde_json::json;
 
-const HOUR: u64 = 3_600_000; // ticks are milliseconds
-const TOL: u64 = 600_000; // 10 minutes: absorbs the real time that passes between Instant::now() calls
+use crate::vtime::{HOUR, TOL};
 
 pub fn prop() -> Prop {
   Prop {
@@ -17,7 +16,7 @@ pub fn prop() -> Prop {
     rule: "case = (operator in observe_on / delay(d) / delay_subscription(d) / subscribe_on / delay_at / delay_subscription_at, d in {0,1,2,5} ticks, _at instants now+{1,2,3}h or now-{1,2}h; local, per-node _threads or all-thread-safe build; timed script of <= 10 steps on the virtual clock (uniquely numbered items, one terminal, gaps 1/2/3/6 ticks, executor steps) followed by a tail that advances past every pending timer; scheduler model FIFO-prompt, FIFO-late (runs only at script steps) or any-ready-task-next (k-worker pool) with generated run order). \
            Oracle: delivered items are source items, each at most once; every item is delivered no earlier than production + d (for _at: the duration asked from the timer is the time remaining until the instant, within a 10 min tolerance, and 0 for a past instant); after quiescence the output is all source items in source order + the terminal (a prefix + error when the source failed); delayed subscription over a hot source sees exactly the events sent after its subscribing task ran. Non-trivial: >= 2 notifications pending at once, or a terminal scheduled while items are pending. Distinct by hash(case).",
     assumptions: &[
-      "tick = 1 ms of virtual time; Instant::now() is real but only enters through hour-scale offsets compared with a 10 minute tolerance",
+      "tick = 1 ns of virtual time; Instant::now() is real but only enters through hour-scale offsets compared with a 10 minute tolerance",
       "under the any-ready-task-next model observe_on / delay schedule one task per notification and nothing re-sequences them: reorder / loss there is a listed known finding (order and completeness are then not checked for that operator, never-early / no-invention / no-duplication still are)",
     ],
     parts: vec![Part { name: "timed", run: run_case, tape_len: 96, quick_cases: 800_000, thorough_cases: 16_000_000, exhaustive_depth: None, exhaustive_budget: 0, exh_quick: false }],
@@ -169,7 +168,7 @@ fn judge(case: &Case, tr: &Trace, ctx: &Ctx, notes: &mut Vec<String>) -> Result<
       if !ok {
         return Err((
           format!("at-duration:{name}"),
-          format!("instant = now{:+}h but the timer was asked for {} ms (expected {})", h, r, if *h > 0 { format!("{}..{} ms", *h as u64 * HOUR - TOL, *h as u64 * HOUR) } else { "0 ms (instant in the past)".into() }),
+          format!("instant = now{:+}h but the timer was asked for {} ticks (expected {})", h, r, if *h > 0 { format!("{}..{} ticks", *h as u64 * HOUR - TOL, *h as u64 * HOUR) } else { "0 (instant in the past)".into() }),
         ));
       }
     }
@@ -350,7 +349,7 @@ fn run_case(c: &mut dyn Choices, ctx: &Ctx) -> Outcome {
       .map(|t| json!(t.recs.iter().map(|r| format!("{}@{} t={}", ev_short(&r.ev), if r.step == usize::MAX { -1 } else { r.step as i64 }, r.vt)).collect::<Vec<_>>()))
       .unwrap_or_else(|m| json!({ "panic": m }));
     if let Ok(t) = &res {
-      j["timer_requests_ms"] = json!(t.requested);
+      j["timer_requests_ticks"] = json!(t.requested);
     }
     Some(j)
   } else {
